@@ -1,6 +1,6 @@
 (* C20 — Configuration precedence: command line over config file over defaults; userdata.
    Statements only; proofs are in theories/ConfigProofs.v and theories/UserDataProofs.v. *)
-From BV Require Import Base UStr ConfigTypes UserData Config ConfigProofs ConfigTagsProofs UserDataProofs ConfigOrder.
+From BV Require Import Base UStr ConfigTypes UserData Config ConfigProofs ConfigTagsProofs UserDataProofs ConfigOrder TableFacts.
 From BVGen Require Import ConfigTables.
 
 (* ---- facts about the option tables generated from the code (decided by evaluation) ---- *)
@@ -287,3 +287,10 @@ Example a_file_and_a_command_line :
   | inr _ => False
   end.
 Proof. vm_compute. repeat split; reflexivity. Qed.
+
+(* words read as Booleans in configuration files, the tag-expression protocol in force when nothing is said *)
+Theorem the_configuration_words_are_the_documented_ones :
+  ini_true = doc_ini_true /\ ini_false = doc_ini_false /\         (* 1 yes true on / 0 no false off *)
+  nth_error proto_names proto_default = Some doc_auto_detect /\ nth_error proto_names proto_strict = Some doc_v2.
+Proof. exact configuration_words_are_the_documented_ones. Qed.
+Print Assumptions the_configuration_words_are_the_documented_ones.
